@@ -231,10 +231,23 @@ func c20Run(c *core.Ctx, idx int) {
 		hdr.Set("Content-Type", "text/html")
 		wire := body
 		if useGzip {
+			// One gzip member, or several concatenated members (a legal stream).
 			var zb bytes.Buffer
-			zw := gzip.NewWriter(&zb)
-			_, _ = zw.Write(body)
-			_ = zw.Close()
+			parts := [][]byte{body}
+			if c.Rng.Intn(3) == 0 && len(body) > 2 {
+				a := 1 + c.Rng.Intn(len(body)-1)
+				parts = [][]byte{body[:a], body[a:]}
+				if c.Rng.Intn(2) == 0 && len(body)-a > 1 {
+					b := a + 1 + c.Rng.Intn(len(body)-a-1)
+					parts = [][]byte{body[:a], body[a:b], body[b:]}
+				}
+				c.Event("gzip_bodies_with_several_members", 1)
+			}
+			for _, p := range parts {
+				zw := gzip.NewWriter(&zb)
+				_, _ = zw.Write(p)
+				_ = zw.Close()
+			}
 			wire = zb.Bytes()
 			hdr.Set("Content-Encoding", "gzip")
 		}
